@@ -2,4 +2,5 @@ def reduceLabel (labels : Int) (remainder : Int) : Py.PyM Int := do
   let mut labels : Int := labels
   if (remainder ≥ (1 : Int)) then
     labels := (Py.imod labels remainder)
+  labels := (Py.imod labels 256)
   return labels
